@@ -184,6 +184,10 @@ def run(ctx, prog, only=None):
         return None if is_sub(t, vf[0].ret) else 'result does not derive from the verification'
     A.require('verify_jws/nonce-kid-scope-key-of-this-document', okp, r_vj, replay=REPLAY)
     A.no_panic('verify_jws/no-panic', paths, replay=REPLAY)
+    # the configured method id reaches resolution as a typed DIDUrl: the query built from it carries the DID, not only the fragment
+    if only is None:
+        import c04
+        c04.run(ctx, prog, only=r'^DIDUrlQuery::from<')
     import c07
     c07.presentation_consistency(A, prog, {'scenario': 'presentation_validation', 'cex': {'only': '[consistency]'}})
 
